@@ -223,6 +223,7 @@ type frame struct {
 	curReach string
 	curSt    *State
 	modObjs  []modItem
+	retExit  map[*ssa.BasicBlock][]*loopInfo // return blocks entered straight from a `complete ... unless` loop
 	noSafety bool
 	unsupported []string
 }
@@ -232,6 +233,7 @@ type modItem struct {
 	obj     string // object id term
 	idx     string // element index term; "" = the whole object
 	all     bool   // every object of the sort (opt havoc / noframe)
+	objSet  string // formula over the bound variable o: o is one of the modified objects (each(x))
 }
 
 // frameFormula: every cell of hNew outside the mod items and below bound
@@ -245,7 +247,9 @@ func frameFormula(key, hNew, hOld, lower, bound string, mods []modItem, isMap bo
 		if m.sortKey != key {
 			continue
 		}
-		if m.idx == "" {
+		if m.objSet != "" {
+			whole = append(whole, "(not "+m.objSet+")")
+		} else if m.idx == "" {
 			whole = append(whole, fmt.Sprintf("(not (= o %s))", m.obj))
 		} else {
 			elems = append(elems, fmt.Sprintf("(not (and (= o %s) (= i %s)))", m.obj, m.idx))
@@ -1187,6 +1191,20 @@ func (fr *frame) setEdge(from, to *ssa.BasicBlock, cond string, st *State) {
 	if fr.top {
 		for _, li := range fr.loopList {
 			if li.spec != nil && li.spec.Complete && li.body[from] && !li.body[to] && from != li.header {
+				if len(to.Instrs) > 0 {
+					if _, isPanic := to.Instrs[len(to.Instrs)-1].(*ssa.Panic); isPanic {
+						continue // leaving by a panic is judged by the panics clauses, not as an early exit
+					}
+				}
+				if li.spec.CompleteUnless != nil && len(to.Preds) == 1 && isReturnBlock(to) {
+					// a return statement inside the loop (its block has no way back to the header, so
+					// go/ssa's natural loop does not contain it): judged at the Return with `unless`
+					if fr.retExit == nil {
+						fr.retExit = map[*ssa.BasicBlock][]*loopInfo{}
+					}
+					fr.retExit[to] = append(fr.retExit[to], li)
+					continue
+				}
 				saved := fr.curReach
 				fr.curReach = "true"
 				fr.oblige("loopexit", fmt.Sprintf("loop%d:%s", li.ord, li.spec.CompleteLabel), fr.props, not(name), fmt.Sprintf("loop %d is left only through its header: the exit from block %d is unreachable", li.ord, from.Index), 0)
@@ -1361,8 +1379,20 @@ func (fr *frame) execInstr(ins ssa.Instruction, st *State) {
 		}
 		if fr.top {
 			for _, li := range fr.loopList {
-				if li.spec != nil && li.spec.Complete && li.body[b] {
-					fr.oblige("loopexit", fmt.Sprintf("loop%d:%s", li.ord, li.spec.CompleteLabel), fr.props, "false", fmt.Sprintf("loop %d is left only through its header: the return inside it is unreachable", li.ord), x.Pos())
+				viaExit := false
+				for _, l2 := range fr.retExit[b] {
+					viaExit = viaExit || l2 == li
+				}
+				if li.spec != nil && li.spec.Complete && (li.body[b] || viaExit) {
+					claim, text := "false", fmt.Sprintf("loop %d is left only through its header: the return inside it is unreachable", li.ord)
+					if li.spec.CompleteUnless != nil {
+						env := fr.specEnv(st, li)
+						env.results = rs
+						env.resultNames = resultNames(fr.fn.Signature)
+						claim = env.trBool(li.spec.CompleteUnless)
+						text = fmt.Sprintf("loop %d is left through its header, or by a return with %s", li.ord, li.spec.CompleteUnlessText)
+					}
+					fr.oblige("loopexit", fmt.Sprintf("loop%d:%s", li.ord, li.spec.CompleteLabel), fr.props, claim, text, x.Pos())
 				}
 			}
 		}
@@ -1996,4 +2026,13 @@ func isByteSlice(t types.Type) bool {
 	}
 	b, ok := sl.Elem().Underlying().(*types.Basic)
 	return ok && (b.Kind() == types.Uint8 || b.Kind() == types.Byte)
+}
+
+// isReturnBlock: the block ends in a return (straight-line code before it allowed).
+func isReturnBlock(b *ssa.BasicBlock) bool {
+	if len(b.Instrs) == 0 {
+		return false
+	}
+	_, ok := b.Instrs[len(b.Instrs)-1].(*ssa.Return)
+	return ok
 }
